@@ -287,7 +287,8 @@ type effects struct {
 // snapshot: what a reading of the index must contain (req) and may contain (alw).
 type snapshot struct {
 	req     map[string]uint64 // series key -> id
-	alw     map[string]bool
+	alw     map[string]bool // live, added by operations in flight, or lingering
+	strict  map[string]bool // live or added by operations in flight (what the exact series-id set may hold)
 	reqMeas map[string]bool
 	alwMeas map[string]bool
 }
@@ -310,6 +311,9 @@ type world struct {
 	cache    int
 	partN    uint64
 	live     map[string]uint64 // series key -> id
+	linger   map[string]bool   // dropped from the index but alive in the series file (as when another shard still has the
+	// series): tsi1 applies series tombstones of newer files only partly when reading, tsdb.IndexSet filters by the
+	// series file instead — such series may stay listed
 	meas     map[string]bool
 	inflight []*effects
 	images   []image
@@ -368,9 +372,12 @@ func (w *world) liveOf(name string) []string {
 }
 
 func (w *world) snapshot() *snapshot {
-	sn := &snapshot{req: map[string]uint64{}, alw: map[string]bool{}, reqMeas: map[string]bool{}, alwMeas: map[string]bool{}}
+	sn := &snapshot{req: map[string]uint64{}, alw: map[string]bool{}, strict: map[string]bool{}, reqMeas: map[string]bool{}, alwMeas: map[string]bool{}}
 	for k, id := range w.live {
-		sn.req[k], sn.alw[k] = id, true
+		sn.req[k], sn.alw[k], sn.strict[k] = id, true, true
+	}
+	for k := range w.linger {
+		sn.alw[k] = true
 	}
 	for m := range w.meas {
 		sn.reqMeas[m], sn.alwMeas[m] = true, true
@@ -380,7 +387,7 @@ func (w *world) snapshot() *snapshot {
 			delete(sn.req, k)
 		}
 		for _, k := range e.addKeys {
-			sn.alw[k] = true
+			sn.alw[k], sn.strict[k] = true, true
 		}
 		for _, m := range e.delMeas {
 			delete(sn.reqMeas, m)
@@ -443,6 +450,7 @@ func (w *world) doOp(c int, p op) {
 				return
 			}
 			w.live[x.key] = id
+			delete(w.linger, x.key)
 		}
 		w.meas[name] = true
 		r.Logf("%s create %d series in %s (%d new) %v", who, len(list), name, len(e.addKeys), p.S)
@@ -454,10 +462,12 @@ func (w *world) doOp(c int, p op) {
 		x := seriesOf(p.M, p.S[0])
 		id, isLive := w.live[x.key]
 		if !isLive {
-			id = w.sf.SeriesID([]byte(x.name), x.mt, nil)
-			if id == 0 {
-				return // never created (or gone from the series file): nothing to drop
-			}
+			// a tombstone for a series the index does not hold is something the engine never writes (it would
+			// also un-delete a dropped measurement: execSeriesEntry clears mm.deleted for tombstones too)
+			return
+		}
+		if r.CfgBool("sfiledrops") {
+			p.X = true
 		}
 		e := &effects{}
 		last := false
@@ -478,6 +488,9 @@ func (w *world) doOp(c int, p op) {
 			return
 		}
 		delete(w.live, x.key)
+		if !p.X {
+			w.linger[x.key] = true
+		}
 		if !p.C && isLive {
 			w.cacheSuspect[x.key] = w.cache > 0
 		}
@@ -499,7 +512,10 @@ func (w *world) doOp(c int, p op) {
 		for _, k := range e.delKeys {
 			ids[k] = w.live[k]
 		}
-		raw := p.R && !r.CfgBool("norawdm")
+		raw := p.R && r.CfgBool("rawdm")
+		if r.CfgBool("sfiledrops") {
+			p.X = true
+		}
 		w.begin(e)
 		var err error
 		if raw {
@@ -528,6 +544,8 @@ func (w *world) doOp(c int, p op) {
 			}
 			if p.X {
 				w.sf.DeleteSeriesID(ids[k], tsdb.Flush)
+			} else {
+				w.linger[k] = true
 			}
 		}
 		delete(w.meas, name)
@@ -596,6 +614,10 @@ func (w *world) seriesSet(itr tsdb.SeriesIDIterator, err error, what string) (ma
 			return nil, false
 		}
 		seen[e.SeriesID] = true
+		if w.sf.IsDeleted(e.SeriesID) {
+			w.r.Probe("obs_listed_id_deleted_in_series_file") // filtered by tsdb.IndexSet the same way
+			continue
+		}
 		got[w.keyOfID(e.SeriesID)] = e.SeriesID
 	}
 }
@@ -653,8 +675,15 @@ func (w *world) checkSet(kind, what string, got map[string]uint64, sn *snapshot,
 	}
 	sort.Strings(gotKeys)
 	for _, k := range gotKeys {
-		if d := domain[k]; d == nil || !sn.alw[k] || !sel(d) {
-			hint := ""
+		hint := ""
+		alw := sn.alw
+		if kind == "series-id-set" {
+			alw = sn.strict
+		}
+		if d := domain[k]; d == nil || !alw[k] || !sel(d) {
+			if d != nil && sel(d) && sn.alw[k] {
+				hint = ":dropped-series-still-in-existence-set"
+			}
 			if kind == "tagvalue-series" && w.cacheSuspect[k] {
 				hint = ":dropped-while-cached"
 			}
@@ -744,6 +773,12 @@ func (w *world) compare(sn *snapshot, when string) bool {
 			r.Violate("C14:measurement-extra", "measurement-unknown:"+when, "%s: MeasurementIterator yields %q, which was never created", when, n)
 			return false
 		}
+	}
+	// the exact existence set (decides whether a created series is new to the index)
+	exist := map[string]uint64{}
+	idx.SeriesIDSet().ForEach(func(id uint64) { exist[w.keyOfID(id)] = id })
+	if !w.checkSet("series-id-set", "Index.SeriesIDSet()", exist, sn, func(*ser) bool { return true }) {
+		return false
 	}
 	for m := 0; m < nMeas; m++ {
 		name := measName(m)
@@ -837,7 +872,7 @@ func (w *world) compare(sn *snapshot, when string) bool {
 					return false
 				}
 				// twice: the second call may be served from the tag-value series-id cache
-				for pass := 0; pass < 2; pass++ {
+				for pass := 0; pass < 2 && (pass == 0 || w.cache > 0); pass++ {
 					itr, err := idx.TagValueSeriesIDIterator(bn, []byte(tk), []byte(tv))
 					what := fmt.Sprintf("TagValueSeriesIDIterator(%s,%s,%s)", name, tk, tv)
 					got, ok := w.seriesSet(itr, err, what)
@@ -897,6 +932,10 @@ func (w *world) evalExprs(list []qexpr, when string) {
 		for _, k := range keys {
 			_, g := got[k]
 			_, m := want[k]
+			if g && !m && w.linger[k] {
+				r.Probe("obs_lingering_series_selected")
+				continue
+			}
 			if g != m {
 				kind := "missing"
 				if g {
@@ -980,7 +1019,7 @@ func (w *world) recover(im image) {
 	simfs.Activate(f2)
 	defer simfs.Activate(nil)
 	r.Simulate(func() {
-		w2 := &world{r: r, maxLog: w.maxLog, maxAge: w.maxAge, cache: w.cache, partN: w.partN, live: map[string]uint64{}, meas: map[string]bool{}, cacheSuspect: map[string]bool{}, rawDropped: map[string]bool{}}
+		w2 := &world{r: r, maxLog: w.maxLog, maxAge: w.maxAge, cache: w.cache, partN: w.partN, live: map[string]uint64{}, linger: map[string]bool{}, meas: map[string]bool{}, cacheSuspect: map[string]bool{}, rawDropped: map[string]bool{}}
 		if err := w2.open(im.dir); err != nil {
 			r.Violate("C14:reopen-error", "reopen-after-crash:"+im.kind, "index does not open after crash at [%s]: %v", im.ev, err)
 			return
@@ -1001,12 +1040,21 @@ func (w *world) recover(im image) {
 		}
 		// the recovered index accepts work: new series in every measurement; what the operations in flight
 		// left behind stays undetermined
-		sn := &snapshot{req: map[string]uint64{}, alw: map[string]bool{}, reqMeas: map[string]bool{}, alwMeas: map[string]bool{}}
+		sn := &snapshot{req: map[string]uint64{}, alw: map[string]bool{}, strict: map[string]bool{}, reqMeas: map[string]bool{}, alwMeas: map[string]bool{}}
 		for k, id := range im.sn.req {
 			sn.req[k] = id
 		}
 		for k := range im.sn.alw {
 			sn.alw[k] = true
+		}
+		for k := range im.sn.strict {
+			sn.strict[k] = true
+		}
+		for m := range im.sn.reqMeas {
+			sn.reqMeas[m] = true
+		}
+		for m := range im.sn.alwMeas {
+			sn.alwMeas[m] = true
 		}
 		for m := 0; m < nMeas; m++ {
 			var keys, names [][]byte
@@ -1026,7 +1074,7 @@ func (w *world) recover(im image) {
 					r.Violate("C14:series-id", "id-changed-after-crash:"+im.kind, "series %q had id %d before the crash at [%s] and has id %d now", x.key, old, im.ev, id)
 					return
 				}
-				sn.req[x.key], sn.alw[x.key] = id, true
+				sn.req[x.key], sn.alw[x.key], sn.strict[x.key] = id, true, true
 			}
 			sn.reqMeas[measName(m)], sn.alwMeas[measName(m)] = true, true
 		}
@@ -1040,7 +1088,7 @@ func (w *world) recover(im image) {
 // ---- run
 
 func exec(r *hx.Run, prog []json.RawMessage) {
-	w := &world{r: r, live: map[string]uint64{}, meas: map[string]bool{}, cacheSuspect: map[string]bool{}, rawDropped: map[string]bool{}}
+	w := &world{r: r, live: map[string]uint64{}, linger: map[string]bool{}, meas: map[string]bool{}, cacheSuspect: map[string]bool{}, rawDropped: map[string]bool{}}
 	fs := r.NewFS("db")
 	if os.Getenv("DSIM_DEBUG") != "" {
 		fs.LogCap = 100000
